@@ -13,6 +13,7 @@ import (
 type Memoizer[T ~string, V any] struct {
 	Cache *cache.Cache[T, V]
 	group *singleflight.Group
+	hot   *hotEntry[T, V]
 }
 
 // NewMemoizer instantiates a new Memoizer.
@@ -20,6 +21,7 @@ func NewMemoizer[T ~string, V any](expiration, cleanup time.Duration) *Memoizer[
 	return &Memoizer[T, V]{
 		Cache: cache.New[T, V](expiration, cleanup),
 		group: &singleflight.Group{},
+		hot:   &hotEntry[T, V]{},
 	}
 }
 
@@ -30,28 +32,72 @@ func NewMemoizer[T ~string, V any](expiration, cleanup time.Duration) *Memoizer[
 // This method is useful for caching the result of a time-consuming operation when is more important
 // to return a slightly outdated result, than to wait for an operation to complete before serving it.
 func (m Memoizer[T, V]) Memoize(key T, fn func() (*cache.Item[V], error)) (*cache.Item[V], error) {
+	{
+		var inl1_v0 *cache.Item[V]
+	inl1done:
+		switch {
+		default:
+			var h *hotEntry[T, V] = m.hot
+			_ = h
+			var key T = key
+			_ = key
+			if h == nil {
+				{
+					inl1_v0 = nil
+					break inl1done
+				}
+			}
+			if k, ok := h.key.Load().(T); !ok || k != key {
+				{
+					inl1_v0 = nil
+					break inl1done
+				}
+			}
+			if item := h.item.Load(); item != nil && !item.Expired() {
+				{
+					inl1_v0 = item
+					break inl1done
+				}
+			}
+			{
+				inl1_v0 = nil
+				break inl1done
+			}
+		}
+		item := inl1_v0
+		if item != nil {
+			return item, nil
+		}
+	}
+
 	item, _ := m.Cache.Get(key)
 	if item != nil {
+	inl2done:
+		switch {
+		default:
+			var h *hotEntry[T, V] = m.hot
+			_ = h
+			var key T = key
+			_ = key
+			var item *cache.Item[V] = item
+			_ = item
+			if h == nil {
+				break inl2done
+
+			}
+			h.key.Store(key)
+			h.item.Store(item)
+		}
+
 		return item, nil
 	}
 
 	data, err, _ := m.group.Do(string(key), func() (any, error) {
-		var inl1_v0 *cache.Item[V]
-		var inl1_v1 error
-		{
-			var m Memoizer[T, V] = m
-			_ = m
-			var key T = key
-			_ = key
-			var fn func() (*cache.Item[V], error) = fn
-			_ = fn
-			item, err := fn()
-			if err == nil {
-				m.Cache.SetDefault(key, item.Val())
-			}
-			inl1_v0, inl1_v1 = item, err
+		item, err := fn()
+		if err == nil {
+			m.Cache.SetDefault(key, item.Val())
 		}
-		return inl1_v0, inl1_v1
+		return item, err
 	})
 
 	return data.(*cache.Item[V]), err
